@@ -4,6 +4,7 @@ DESIGN.md section 2."""
 import math
 from fractions import Fraction
 
+import common
 from common import PANIC, val, show
 import exact as ex
 from exact import Expect, Fraction as _F
@@ -171,6 +172,8 @@ def judge(prop, typ, xs, kv, res, case, variant='release', only=None, mo=None, c
                     nontrivial = True
                 continue
         if tok is None:
+            if common.absent_ok(variant, name):
+                continue
             res.violation(prop, '%s.%s:missing' % (bt, name), '%s: accessor %s not reported' % (typ, name), case, variant)
             continue
         obs = val(tok)
